@@ -55,6 +55,9 @@ func ReadPointCloud(in io.Reader) (*modeling.Mesh, error) {
 		}
 
 		contents := strings.Fields(line)
+		if len(contents) < 3 {
+			return nil, io.ErrUnexpectedEOF
+		}
 
 		if len(contents) > 2 {
 			pos, err := ParseVec3(contents[0], contents[1], contents[2])
@@ -87,6 +90,10 @@ func ReadPointCloud(in io.Reader) (*modeling.Mesh, error) {
 
 	if scanner.Err() != nil {
 		return nil, scanner.Err()
+	}
+
+	if curLine < parsedCount {
+		return nil, io.ErrUnexpectedEOF
 	}
 
 	v3Data := make(map[string][]vector3.Float64)
